@@ -1,6 +1,5 @@
 (* Generated model functions = published closed forms. *)
 From Coq Require Import Reals Lra.
-From Interval Require Import Tactic.
 From NV Require Import Base.RealExtra Gen.ModelFuncs Model.Formulas.
 Local Open Scope R_scope.
 
@@ -69,35 +68,6 @@ Proof.
   intros H. unfold m_power_layer_clifford_2009. cbv zeta.
   destruct (Rlt_dec 0 (cp - delta)); [lra | ring].
 Qed.
-
-(* ---- the truncated series against the exact sphere solution --------------------- *)
-Lemma series_close_hi : forall a, 3 / 100 <= a <= 8336 / 10000 ->
-  Rabs (series_unit (sn_delta a) - sn_F a) <= 1 / 10000 * (119 / 100).
-Proof.
-  intros a H. unfold series_unit, sn_delta, sn_F.
-  interval with (i_bisect a, i_taylor a, i_prec 60, i_depth 20).
-Qed.
-
-Lemma series_close_lo : forall a, 0 <= a <= 3 / 100 ->
-  Rabs (series_unit (sn_delta a) - sn_F a) <= 1 / 10000 * (119 / 100).
-Proof.
-  intros a H. unfold series_unit, sn_delta, sn_F.
-  interval with (i_bisect a, i_prec 60, i_depth 20).
-Qed.
-
-Lemma series_close : forall a, 0 <= a <= 8336 / 10000 ->
-  Rabs (series_unit (sn_delta a) - sn_F a) <= 1 / 10000 * (119 / 100).
-Proof.
-  intros a H. destruct (Rle_dec a (3 / 100)).
-  - apply series_close_lo. lra.
-  - apply series_close_hi. lra.
-Qed.
-
-Lemma depth_range : sn_delta (8335 / 10000) <= 1 <= sn_delta (8336 / 10000).
-Proof. unfold sn_delta. split; interval. Qed.
-
-Lemma max_force_lower : 119 / 100 <= sn_F (8335 / 10000).
-Proof. unfold sn_F. interval. Qed.
 
 (* scaling: the series model in physical units is the unit series *)
 Lemma sphere_scaling E R nu d : 0 < R -> 0 < d -> 1 - nu ^ 2 <> 0 ->
